@@ -44,8 +44,8 @@ def get_markings(obj, selectors, inherited=False, descendants=False, marking_ref
             for marking_selector in marking.get('selectors', []):
                 if any([
                     (user_selector == marking_selector),  # Catch explicit selectors.
-                    (user_selector.startswith(marking_selector) and inherited),  # Catch inherited selectors.
-                    (marking_selector.startswith(user_selector) and descendants),
+                    (user_selector.startswith(marking_selector + '.') and inherited),  # Catch inherited selectors.
+                    (marking_selector.startswith(user_selector + '.') and descendants),
                 ]):  # Catch descendants selectors
                     ref = marking.get('marking_ref')
                     lng = marking.get('lang')
@@ -290,8 +290,8 @@ def is_marked(obj, marking=None, selectors=None, inherited=False, descendants=Fa
 
                 if any([
                     (user_selector == marking_selector),  # Catch explicit selectors.
-                    (user_selector.startswith(marking_selector) and inherited),  # Catch inherited selectors.
-                    (marking_selector.startswith(user_selector) and descendants),
+                    (user_selector.startswith(marking_selector + '.') and inherited),  # Catch inherited selectors.
+                    (marking_selector.startswith(user_selector + '.') and descendants),
                 ]):  # Catch descendants selectors
                     marking_ref = granular_marking.get('marking_ref', '')
                     lang = granular_marking.get('lang', '')
